@@ -2,6 +2,7 @@ import Driver.Resolve
 import Driver.Sched
 import Driver.Output
 import Driver.Vars
+import Driver.Decode
 import Driver.Remote
 import Driver.Quote
 import Driver.Load
@@ -12,12 +13,14 @@ open Driver
 def dispatch (line : String) : String :=
   match (line.splitOn " ").filter (· ≠ "") with
   | [] => "bad-op"
+  | ["race.ok"] => "ok"     -- race workloads have no functional answer: the race detector is the oracle
   | op :: args =>
     let r :=
       if op.startsWith "resolve." then Driver.Resolve.handle op args
       else if op.startsWith "sched." then Driver.Sched.handle op args
       else if op.startsWith "output." then Driver.Output.handle op args
       else if op.startsWith "vars." then Driver.Vars.handle op args
+      else if op.startsWith "decode." then Driver.Decode.handle op args
       else if op.startsWith "remote." then Driver.Remote.handle op args
       else if op.startsWith "quote." then Driver.Quote.handle op args
       else if op.startsWith "load." then Driver.Load.handle op args
